@@ -100,9 +100,10 @@ def mass_params():
 _S_RB, _S_RATIO, _S_SPACING = _edge(*RB), _edge(*RATIO), _edge(*SPACING)
 _S_THICK, _S_LMIN, _S_STROKE = _edge(*THICK_FRAC), _edge(*LMIN_RADII), _edge(*STROKE)
 _S_HAND = st.sampled_from([1, -1])
-_S_SHAPE = st.sampled_from(["any", "any", "any", "any", "flat", "tall"])
-_S_FLAT_RATIO, _S_FLAT_LMIN = _edge(0.85, 1.0), _edge(0.8, 0.95)
-_S_FLAT_STROKE, _S_FLAT_THICK = _edge(1.5, 1.65), _edge(0.0, 0.02)
+_S_SHAPE = st.sampled_from(["any", "any", "any", "any", "vertex", "vertex", "flat", "tall"])
+_S_ENDS = st.lists(st.integers(0, 1), min_size=7, max_size=7)
+_S_FLAT_RATIO, _S_FLAT_LMIN = _edge(0.95, 1.0), _edge(0.8, 0.85)
+_S_FLAT_STROKE, _S_FLAT_THICK, _S_FLAT_SPACING = _edge(1.5, 1.55), _edge(0.0, 0.01), _edge(5.0, 8.0)
 _S_TALL_LMIN, _S_TALL_STROKE = _edge(1.3, 1.5), _edge(1.8, 2.0)
 _S_ALT = st.one_of(st.just(0.0), st.just(0.0), G.floats(-180.0, 180.0), st.sampled_from([30.0, -60.0, 90.0]))
 _S_BASE = base_poses()
@@ -124,13 +125,20 @@ def sp_specs(draw, routes=ROUTES, spin=True, base=True, masses=False):
     rb = draw(_S_RB)
     sb = draw(_S_SPACING)
     stp = draw(_S_SPACING)
-    # shape classes: the whole box, plus the two ends of "how steep do the legs stand" -- flat platforms (equal
-    # plates, short legs, short stroke: legs almost horizontal, the neutral-height square root near its domain
-    # limit, FK worst conditioned) and tall slender ones
+    # shape classes: the whole box; "vertex" = every shape parameter on an end of its range (the 2^7 corners of the
+    # quantifier's box); and the two ends of "how steep do the legs stand" -- "flat" (equal plates, joints paired
+    # tightly, short legs, short stroke: legs almost horizontal, the neutral height below half the minimum leg
+    # length, the neutral-height square root near its domain limit) and "tall" slender platforms
     shape = draw(_S_SHAPE)
     if shape == "flat":
         ratio, kmin, stroke, thick = draw(_S_FLAT_RATIO), draw(_S_FLAT_LMIN), draw(_S_FLAT_STROKE), draw(_S_FLAT_THICK)
+        sb, stp = draw(_S_FLAT_SPACING), draw(_S_FLAT_SPACING)
         tb, tt = thick * rb, thick * rb * ratio
+    elif shape == "vertex":
+        e = draw(_S_ENDS)
+        ratio, sb, stp = RATIO[e[0]], SPACING[e[1]], SPACING[e[2]]
+        tb, tt = THICK_FRAC[e[3]] * rb, THICK_FRAC[e[4]] * rb * ratio
+        kmin, stroke = LMIN_RADII[e[5]], STROKE[e[6]]
     elif shape == "tall":
         ratio, kmin, stroke = draw(_S_RATIO), draw(_S_TALL_LMIN), draw(_S_TALL_STROKE)
         tb, tt = draw(_S_THICK) * rb, draw(_S_THICK) * rb * ratio
